@@ -28,14 +28,19 @@ def schema_i():
     return """
 enum Kind { A B in }
 scalar Blob
+scalar Stamp
+input Win { at: Stamp ats: [Stamp!] grid: [[Stamp]] label: String }
 input Nested { v: Int tags: [String!] }
 input In { a: Int req: String! kind: Kind nested: Nested nums: [Int!] camelCase: Int class: Int copy: Int dflt: Int = 5 }
 input Rec { id: ID! next: Rec children: [Rec!] }
 type Query {
 %s
   multi(a: Int, b: String, c: Kind, d: [Int]): String
+  stamp(x: Stamp): String
+  win(x: Win, ws: [Win!]): String
 }
 type Mutation { mmulti(a: Int!, b: String): String }
+type Subscription { smulti(a: Int, b: String, c: Kind, d: [Int]): String  sin(x: In, r: Rec): String  swin(x: Win, at: Stamp): String }
 """ % "\n".join(fields)
 
 
@@ -47,6 +52,12 @@ def get_schema():
     global _schema
     if _schema is None:
         _schema = build_schema(SCHEMA_I)
+
+        def parse_stamp(v):
+            if isinstance(v, bool) or not isinstance(v, int):
+                raise TypeError(f"Stamp expects integer epoch seconds, got {v!r}")
+            return v
+        _schema.type_map["Stamp"].parse_value = parse_stamp
     return _schema
 
 
@@ -86,7 +97,46 @@ def build_cases(tier):
     q = "query M($a: Int!, $b: String, $c: Kind = A, $d: [Int] = [1, null]) { multi(a: $a, b: $b, c: $c, d: $d) }\n"
     for cfg in ({}, {"async_client": False}):
         cases.append(dict(kind="multi", query=q, op="M", vars=[("a", "Int!", False), ("b", "String", False), ("c", "Kind", True), ("d", "[Int]", True)], options=cfg, tags={"multi"}))
+    # subscriptions: the websocket path has its own copy of the variables plumbing
+    for n in NAME_CATALOGUE:
+        cfgs = ({}, {"convert_to_snake_case": False}) if (tier != "quick" or n.lower().lstrip("_") in ("query", "variables", "data", "response", "gql", "self", "class", "foobar")) else ({},)
+        for cfg in cfgs:
+            q = f"subscription SN(${n}: Int, $other: String) {{ smulti(a: ${n}, b: $other) }}\n"
+            cases.append(dict(kind="sub", query=q, op="SN", vars=[(n, "Int", False), ("other", "String", False)], options=cfg, tags={f"varname:{n}", "names", "subscription"}))
+    for q2, vs in (("subscription SI($x: In, $r: Rec) { sin(x: $x, r: $r) }\n", [("x", "In", False), ("r", "Rec", False)]),
+                   ("subscription SM($b: String, $a: Int!, $c: Kind = A, $d: [Int]) { smulti(a: $a, b: $b, c: $c, d: $d) }\n",
+                    [("b", "String", False), ("a", "Int!", False), ("c", "Kind", True), ("d", "[Int]", False)]),
+                   ("subscription SQ($query: In, $variables: Rec) { sin(x: $query, r: $variables) }\n", [("query", "In", False), ("variables", "Rec", False)])):
+        for cfg in ({}, {"convert_to_snake_case": False}, {"opentelemetry_client": True}):
+            cases.append(dict(kind="sub", query=q2, op=q2.split("(")[0].split()[1], vars=vs, options=cfg, tags={"multi", "subscription"}))
+    # configured custom scalar (type + serialize) at every input position, incl. list items inside input fields
+    # (top-level nullable / list-typed custom-scalar variables are the C07 findings "serialize called with UNSET/None/whole list" and are left to C07)
+    sc_ops = [("query T1($x: Stamp!) { stamp(x: $x) }\n", [("x", "Stamp!", False)]),
+              ("query T5($x: Win) { win(x: $x) }\n", [("x", "Win", False)]),
+              ("query T6($ws: [Win!]) { win(ws: $ws) }\n", [("ws", "[Win!]", False)]),
+              ("subscription T7($x: Win, $at: Stamp!) { swin(x: $x, at: $at) }\n", [("x", "Win", False), ("at", "Stamp!", False)])]
+    for q2, vs in sc_ops:
+        for cfg in ({}, {"async_client": False}, {"opentelemetry_client": True}, {"include_all_inputs": False}):
+            if "subscription" in q2 and cfg.get("async_client") is False:
+                continue
+            cases.append(dict(kind="sub" if "subscription" in q2 else "scalar", query=q2, op=q2.split("(")[0].split()[1], vars=vs, options=dict(cfg), scalars=True,
+                              tags={"configured_scalar"} | ({"subscription"} if "subscription" in q2 else set())))
     return cases
+
+
+STAMP_MOD = '''
+import datetime
+
+
+def to_epoch(value):
+    return int(value.timestamp())
+'''
+STAMP_VALUES = {"Stamp": [0, 86400]}
+
+
+def stamp_build(name, v):
+    import datetime
+    return datetime.datetime.fromtimestamp(v, tz=datetime.timezone.utc)
 
 
 def type_of(schema, tstr):
@@ -102,8 +152,14 @@ def evaluate(case):
     options = case["options"]
     snake = options.get("convert_to_snake_case", True)
     with genpkg.scratch() as d:
+        files = None
+        if case.get("scalars"):
+            files = {"stamp_mod.py": STAMP_MOD}
+            options = dict(options, files_to_include=[f"{d}/stamp_mod.py"],
+                           scalars={"Stamp": {"type": "datetime.datetime", "serialize": ".stamp_mod.to_epoch"}})
+        custom = STAMP_VALUES if case.get("scalars") else None
         try:
-            pkg, pdir, _ = genpkg.generate(d, SCHEMA_I, case["query"], options)
+            pkg, pdir, _ = genpkg.generate(d, SCHEMA_I, case["query"], options, files=files)
             mod, mods = genpkg.import_package(d, pkg)
         except genpkg.GenError as e:
             out.update(status="gen_error", error=str(e), error_type=e.exc_type)
@@ -117,7 +173,7 @@ def evaluate(case):
         menus = {}
         for vn, vt, dflt in vars_:
             t = type_of(schema, vt)
-            m = inputs.menu(t, depth=2)
+            m = inputs.menu(t, depth=2, custom=custom)
             cap = case.get("menu_cap", 14 if "In" not in vt and "Rec" not in vt else 48)
             m = m[:cap]
             from graphql import is_non_null_type
@@ -150,11 +206,14 @@ def evaluate(case):
             out["calls"] += 1
             missing_required = [vn for vn, (m, required, nn) in menus.items() if required and plan[vn] == inputs.OMIT]
             try:
-                kwargs = {process_name(vn, convert_to_snake_case=snake): inputs.build(v, mod) for vn, v in plan.items() if v != inputs.OMIT}
+                kwargs = {process_name(vn, convert_to_snake_case=snake): inputs.build(v, mod, stamp_build) for vn, v in plan.items() if v != inputs.OMIT}
             except Exception as e:  # noqa
                 P.append(("cannot_build_argument", f"{type(e).__name__}: {e}", {"plan": plan}))
                 continue
-            captured, (st, val) = inputs.call_and_capture(mod, mod.Client, is_async, mname, kwargs)
+            if case["kind"] == "sub":
+                captured, (st, val) = inputs.call_and_capture_ws(mod, mods, mod.Client, mname, kwargs)
+            else:
+                captured, (st, val) = inputs.call_and_capture(mod, mod.Client, is_async, mname, kwargs)
             ctx = {"plan": {k: v for k, v in plan.items()}}
             if missing_required:
                 if st == "exc" and isinstance(val, TypeError) and not captured:
